@@ -86,3 +86,11 @@ _call_rets = {}
 
 def call_ret(contract):
     return _call_rets[contract]
+
+
+def entries_none_from(table, lo):
+    return all(x is None for x in list(table)[max(lo, 0):])
+
+
+def was_called(contract):
+    return contract in _call_args
